@@ -79,8 +79,5 @@ Wanted(a, k) ==
 Used(p, k) == rows[p][k]
 MidpointValue == Done => \A p \in 1..Len(Atoms) : p <= Len(cols) => \A k \in 1..K : Used(p, k) = Wanted(Atoms[p], k)
 AmplitudeNonNegative == (Done /\ kind = "amp") => \A c \in 1..Len(cols) : \A k \in 1..K : Le(R(0), rows[c][k])
-\* vacuity witnesses (must be REACHABLE: checked as "invariants" that are expected to be violated in a side run)
-NoMidBeyondLastSample == Done => \A k \in 1..K : Le(mid[k], R(T-1))
-
 LogStep == (LogCases /\ pc' = "done") => PrintT(<<"S", tt, kind, reg, sig, rows'>>)
 ====
